@@ -105,7 +105,7 @@ def isInstance (v : Val) (t : String) : Bool :=
   | .torch .module cls _ => t == "Module" || t == cls
   | .torch _ cls _ => t == cls
   | .fallback cls _ => t == cls
-  | .rawBytes _ => t == "ndarray"
+  | .rawBytes p => t == p.cls          -- decodes to the fallback value of that class
   | .npRng _ => t == "Generator"
   | .torchRng => t == "TorchGenerator"
   | .pyLogger .. => t == "Logger"
